@@ -102,7 +102,16 @@ fn nc_builder(c: &Ctx) -> noncontiguous::Builder {
 }
 
 /// Build the low-level automaton a context names ("nc" | "c" | "dfa").
+/// builds run under the hang monitor and with panics turned into data
 pub fn build_low(c: &Ctx) -> Result<Aut, String> {
+    set_case(&serde_json::to_string(c).unwrap_or_default());
+    match guarded(|| build_low_imp(c)) {
+        Ok(r) => r,
+        Err(p) => Err(format!("panic: {}", p)),
+    }
+}
+
+fn build_low_imp(c: &Ctx) -> Result<Aut, String> {
     match c.repr {
         "nc" => nc_builder(c)
             .build(&c.pats)
@@ -154,7 +163,11 @@ pub fn top_builder(c: &Ctx) -> AhoCorasickBuilder {
 /// Build the top-level searcher for a context (any repr; low-level names are
 /// mapped to the corresponding explicit kind).
 pub fn build_top(c: &Ctx) -> Result<AhoCorasick, String> {
-    top_builder(c).build(&c.pats).map_err(|e| e.to_string())
+    set_case(&serde_json::to_string(c).unwrap_or_default());
+    match guarded(|| top_builder(c).build(&c.pats).map_err(|e| e.to_string())) {
+        Ok(r) => r,
+        Err(p) => Err(format!("panic: {}", p)),
+    }
 }
 
 pub fn anch(an: bool) -> Anchored {
